@@ -8,8 +8,10 @@ from .model import V, C, Add, Mul, Minus, Div, Pow, Neg, Recip, Cos, Sin, NPow, 
 x, y = V("x"), V("y")
 
 
-def enum_terms(tier: str):
-    """ENUM: T(<=3, full) u T(<=4, red) [quick]; + T(<=4, med) + T(<=5, red) [thorough]."""
+def enum_terms(tier: str, size5: bool = False):
+    """ENUM: T(<=3, full) u T(<=4, red) [quick]; + T(<=4, med) [thorough]; + T(<=5, red) [thorough, only where asked:
+    the 805 k five-node terms are affordable for the evaluation and forward-mode sweeps C01-C03, not for the engines
+    that follow rewrite traces or compare two dozen derivative routes per term]."""
     seen = set()
     out = []
 
@@ -25,14 +27,15 @@ def enum_terms(tier: str):
     push(M.terms_up_to(M.SIGMA_RED, 4))
     if tier == "thorough":
         push(M.terms_up_to(M.SIGMA_MED, 4))
-        push(M.terms_up_to(M.SIGMA_RED, 5))
+        if size5:
+            push(M.terms_up_to(M.SIGMA_RED, 5))
     return out
 
 
 def enum_describe(tier):
     parts = ["T(<=3, full)", "T(<=4, red)"]
     if tier == "thorough":
-        parts += ["T(<=4, med)", "T(<=5, red)"]
+        parts += ["T(<=4, med)", "T(<=5, red) (C01, C02, C03 only)"]
     return " u ".join(parts)
 
 
